@@ -97,6 +97,8 @@ def parse_recipe(path, name):
                     fnspec = item.fn(parts[2])
                 elif parts[0] == "range":
                     fnspec = item.fn("vx_block")
+                elif parts[0] == "ctor":
+                    fnspec = item.fn("vx_ctor_" + parts[2])
             elif key == "@fn":
                 fnspec = item.fn(rest)
             elif key == "@rules":
